@@ -98,6 +98,7 @@ class Template:
         self.connects = []          # (a IR, b IR, gen frames, lineno)
         self.calls = []             # other call statements: (IR, gen frames, dsl frames, lineno)
         self.asserts = []
+        self.raises = []
         self.trys = []
         self.yields = []
         self.conds = []
@@ -120,7 +121,8 @@ SIGNAL_CTORS = {"Signal"}
 
 
 class Walker:
-    def __init__(self, func_info, index, inline_depth=3):
+    def __init__(self, func_info, index, inline_depth=3, no_inline=()):
+        self.no_inline = set(no_inline)
         self.fi = func_info
         self.index = index
         self.t = Template(func_info)
@@ -144,7 +146,52 @@ class Walker:
         return self.nid
 
     def ex(self, node):
-        return ir.from_ast(node, self.env)
+        return self.inline_helpers(ir.from_ast(node, self.env))
+
+    def inline_helpers(self, e, depth=3):
+        """Replace calls to single-return helpers of the same class (self._f(x), Cls._f(x)) by their result expression."""
+        if depth <= 0 or self.fi.cls is None:
+            return e
+
+        def f(x):
+            if x[0] != 'call' or x[1][0] != 'attr' or x[3] and any(k == '**' for k, _ in x[3]):
+                return None
+            recv, name = x[1][1], x[1][2]
+            target = None
+            if recv in (('name', 'self'), ('name', 'cls')):
+                target = self.index.lookup_method(self.fi.cls, name)
+            else:
+                c = self.index.resolve_class(recv, self.fi.module, self.fi.cls)
+                if c is not None:
+                    target = self.index.lookup_method(c, name)
+            if target is None or target.node is self.fi.node or name in self.no_inline:
+                return None
+            body = [s for s in target.node.body
+                    if not (isinstance(s, ast.Expr) and isinstance(s.value, ast.Constant)) and not isinstance(s, ast.Assert)]
+            if not body or not isinstance(body[-1], ast.Return) or body[-1].value is None:
+                return None
+            if not all(isinstance(s, ast.Assign) and len(s.targets) == 1 and isinstance(s.targets[0], ast.Name) for s in body[:-1]):
+                return None
+            params = [p for p in target.params]
+            if params and params[0] in ("self", "cls") and not target.is_static:
+                params = params[1:]
+            if any(a[0] == 'star' for a in x[2]) or len(x[2]) > len(params):
+                return None
+            env = dict(zip(params, x[2]))
+            for k, v in x[3]:
+                env[k] = v
+            a = target.node.args
+            for p, dflt in zip([q.arg for q in a.args][len(a.args) - len(a.defaults):], a.defaults):
+                env.setdefault(p, ir.from_ast(dflt, {}))
+            if not target.is_static:
+                env.setdefault("self", recv if recv[0] != 'name' or recv[1] not in ('self', 'cls') else ('name', 'self'))
+            for s in body[:-1]:
+                env[s.targets[0].id] = ir.from_ast(s.value, env)
+            out = ir.from_ast(body[-1].value, env)
+            if any(y[0] == 'name' and y[1] in params and y[1] not in env for y in ir.walk(out)):
+                return None
+            return self.inline_helpers(out, depth - 1)
+        return ir.subst(e, f)
 
     def bind(self, name, value):
         self.env[name] = value
@@ -171,19 +218,23 @@ class Walker:
         self.block(fn.body)
         for d in self.t.drivers:
             d.order = tuple(c.v if isinstance(c, OrderCell) else c for c in d.order)
+        self.t.final_env = dict(self.env)
         return self.t
 
     def block(self, stmts):
         for i, st in enumerate(stmts):
-            if isinstance(st, ast.If) and not st.orelse and st.body and isinstance(st.body[-1], ast.Continue) \
-                    and any(fr[0] == 'for' for fr in self.gen):
-                # `if c: ...; continue`  ==  the rest of the loop body runs under `not c`
+            is_cont = isinstance(st, ast.If) and not st.orelse and st.body and isinstance(st.body[-1], ast.Continue) \
+                and any(fr[0] == 'for' for fr in self.gen)
+            is_ret = isinstance(st, ast.If) and not st.orelse and st.body and isinstance(st.body[-1], ast.Return) \
+                and i + 1 < len(stmts)
+            if is_cont or is_ret:
+                # `if c: ...; continue` / `if c: ...; return x`  ==  the rest of the block runs under `not c`
                 cond = self.ex(st.test)
                 self.t.conds.append((cond, self.gen, st.lineno))
                 saved = self.gen
                 env0, bc0 = dict(self.env), dict(self.bind_ctx)
                 self.gen = saved + (('pyif', cond, True),)
-                self.block(st.body[:-1])
+                self.block(st.body[:-1] if is_cont else st.body)
                 self.env, self.bind_ctx = env0, bc0
                 self.gen = saved + (('pyif', cond, False),)
                 self.block(stmts[i + 1:])
@@ -225,7 +276,13 @@ class Walker:
             return
         if isinstance(st, ast.Delete):
             return
-        if isinstance(st, (ast.Pass, ast.Raise)):
+        if isinstance(st, ast.Pass):
+            return
+        if isinstance(st, ast.Raise):
+            exc = "?"
+            if st.exc is not None:
+                exc = ast.unparse(st.exc.func if isinstance(st.exc, ast.Call) else st.exc)
+            self.t.raises.append((exc, self.gen, st.lineno))
             return
         if isinstance(st, ast.FunctionDef):
             return self.localdef(st)
@@ -594,10 +651,18 @@ class Walker:
             rev = True
             core = core[2][0]
         loop = None
-        if core[0] == 'call' and core[1] == ('name', 'range') and 1 <= len(core[2]) <= 2 and not core[3]:
+        step = core[2][2] if core[0] == 'call' and core[1] == ('name', 'range') and len(core[2]) == 3 else None
+        neg_step = step in (('const', -1), ('un', '-', ('const', 1)))
+        if core[0] == 'call' and core[1] == ('name', 'range') and not core[3] and \
+                (1 <= len(core[2]) <= 2 or step == ('const', 1) or neg_step):
             loop = Loop(lid, 'range', it, None, st.lineno, names)
             a = core[2]
-            loop.bounds = (('const', 0), a[0]) if len(a) == 1 else (a[0], a[1])
+            if neg_step:
+                # range(a, b, -1) visits a, a-1, ..., b+1: the index set of range(b+1, a+1), in descending order
+                loop.bounds = (('bin', '+', a[1], ('const', 1)), ('bin', '+', a[0], ('const', 1)))
+                rev = not rev
+            else:
+                loop.bounds = (('const', 0), a[0]) if len(a) == 1 else (a[0], a[1])
             loop.reversed = rev
             if isinstance(st.target, ast.Name):
                 self.t.loops[lid] = loop
@@ -735,6 +800,6 @@ class Walker:
         self.bind_ctx = bc
 
 
-def extract(func_info, index, inline_depth=3):
-    w = Walker(func_info, index, inline_depth)
+def extract(func_info, index, inline_depth=3, no_inline=()):
+    w = Walker(func_info, index, inline_depth, no_inline)
     return w.run()
